@@ -132,7 +132,7 @@ class Sym(object):
 
 DEFAULT_W = dict(query=30, refit=12, threshold=10, calibrate=6, handout=8,
                  mutate=3, restart=7, clone=4, ambient=5, eigsh=3, set_nondata=4,
-                 failfit=3, fault=0, new=6, sweep=0, swap_pre=3)
+                 failfit=3, fault=0, new=6, sweep=0, swap_pre=3, interrupt=0)
 
 
 def gen_history(seed, tier, classes=None, weights=None, n_ops=(6, 16),
@@ -373,6 +373,24 @@ def gen_history(seed, tier, classes=None, weights=None, n_ops=(6, 16),
       ops.append(dict(op="fit", h=s.hid, data=s.data, via="formed",
                       malformed=r.choice(["nan", "short_y"])))
       s.fitted = False
+    elif k == "interrupt":
+      # crash point: the next fit (same or other data) is interrupted at a
+      # drawn fraction of its metric-learn line events; the fit after it must
+      # behave as if the interrupted one had never happened
+      other = r.choice(dkeys)
+      if s.pre and other != s.data:
+        other = s.data
+      n0 = len(ops)
+      fit_op(s, other, regen=r.random() < 0.2)
+      if len(ops) > n0 and ops[-1]["op"] == "fit":
+        ops[-1].get("extras", {}).pop("calibration_params", None)
+        fr = r.choice([r.random(), r.random(), r.random(), r.random(), r.random() ** 3,
+                       1 - r.random() ** 3, 1 - r.random() ** 3, 0.999999])
+        ops[-1]["interrupt"] = dict(frac=round(fr, 6),
+                                    exc=r.choice(["KeyboardInterrupt", "KeyboardInterrupt", "MemoryError"]))
+        s.fitted = False
+        if r.random() < 0.9:
+          fit_op(s, r.choice([s.data, s.data, s.data, other]) if not s.pre else s.data)
     elif k == "fault" and s.pre == "store":
       ops.append(dict(op="arm_fault", h=s.hid, at=r.randrange(0, 4),
                       exc=r.choice(["ValueError", "KeyError", "IndexError", "RuntimeError",
